@@ -5,6 +5,7 @@ from .. import core
 from ..core import q, lst, natl, boolc, opt, pair
 from .. import pb, mesgen
 
+NAMING = True
 ID = "C07"
 ORACLE = "Oracle.C07"
 PROPS = "Props/C07.v"
